@@ -16,6 +16,7 @@ import (
 	"math"
 	"os"
 	"sort"
+	"strconv"
 	"strings"
 	"time"
 	"unicode/utf8"
@@ -226,6 +227,9 @@ type refBlock struct {
 	hdr, data, sig []byte
 	hash           string
 	seq            int // number of the save that wrote it
+	// the signature arguments (hex) of every EARLIER save of this height, whatever the header: a signature read that
+	// returns one of these returns a write that is not the latest (never mutated in place: clones share it)
+	older []string
 }
 type refEntry struct {
 	height uint64
@@ -272,7 +276,11 @@ func (r *refState) overwritten(x string) bool {
 }
 func (r *refState) save(h uint64, hk string, hb, db, sig []byte) {
 	r.seq++
-	r.blocks[h] = refBlock{hdr: hb, data: db, sig: append([]byte(nil), sig...), hash: hk, seq: r.seq}
+	var older []string
+	if old, ok := r.blocks[h]; ok {
+		older = append(append([]string(nil), old.older...), hx.Hex(old.sig))
+	}
+	r.blocks[h] = refBlock{hdr: hb, data: db, sig: append([]byte(nil), sig...), hash: hk, seq: r.seq, older: older}
 	r.index[hk] = refEntry{height: h, seq: r.seq}
 }
 func (r *refState) clone() *refState {
@@ -477,14 +485,41 @@ func (w *world) cause(m mismatch) string { return w.causeIn(w.ref, m) }
 // look-up of the replaced header met an injected read fault.
 func (w *world) causeIn(ref *refState, m mismatch) string {
 	sig := causeOf(ref, m)
-	if sig != "" && w.faultStale[m.id] {
+	if sig == sigStaleIndex && w.faultStale[m.id] {
 		sig += "/after-read-fault"
 	}
 	return sig
 }
+
+const (
+	sigStaleIndex   = "C14/read/by-hash-returns-other-block-after-height-overwrite"
+	sigNotLatestSig = "C14/read/signature-not-the-latest-write"
+)
+
 func causeOf(ref *refState, m mismatch) string {
 	if (m.kind == "hash" || m.kind == "sighash") && strings.HasPrefix(m.got, "ok ") && m.want == "err:notfound" && ref.overwritten(m.id) {
-		return "C14/read/by-hash-returns-other-block-after-height-overwrite"
+		return sigStaleIndex
+	}
+	// a signature read (by height / by header hash) that answers with the signature argument of an EARLIER save of
+	// that height instead of the last one: the signature is a record of its own, not a function of header and data
+	if (m.kind == "signature" || m.kind == "sighash") && strings.HasPrefix(m.got, "ok sig=") && strings.HasPrefix(m.want, "ok sig=") {
+		var b refBlock
+		ok := false
+		if m.kind == "signature" {
+			if h, err := strconv.ParseUint(m.id, 10, 64); err == nil {
+				b, ok = ref.blocks[h]
+			}
+		} else {
+			b, ok = ref.byHash(m.id)
+		}
+		if ok {
+			got := strings.TrimPrefix(m.got, "ok sig=")
+			for _, o := range b.older {
+				if o == got {
+					return sigNotLatestSig
+				}
+			}
+		}
 	}
 	return ""
 }
@@ -1055,6 +1090,7 @@ type gblock struct {
 	d    types.Data
 	sig  []byte
 	line string
+	pre  string // line without the signature argument: pre + " sig=<hex>" saves the same header and data
 	hash []byte
 }
 
@@ -1091,8 +1127,8 @@ func rblock(r *hx.Rng, height uint64) gblock {
 		d.Txs = append(d.Txs, types.Tx(rbytes(r, 0, 1, 3, 40, 130)))
 	}
 	sig := rbytes(r, 0, 64, 64, 64, 5)
-	line := fmt.Sprintf("save %s hsig=%s sa=%s pk=%s %s sig=%s", showHeaderArgs(&sh.Header), hx.Hex(sh.Signature), hx.Hex(sh.Signer.Address), pk, showDataArgs(&d), hx.Hex(sig))
-	return gblock{sh: sh, d: d, sig: sig, line: line, hash: sh.Hash()}
+	pre := fmt.Sprintf("save %s hsig=%s sa=%s pk=%s %s", showHeaderArgs(&sh.Header), hx.Hex(sh.Signature), hx.Hex(sh.Signer.Address), pk, showDataArgs(&d))
+	return gblock{sh: sh, d: d, sig: sig, line: pre + " sig=" + hx.Hex(sig), pre: pre, hash: sh.Hash()}
 }
 
 func rstateLine(r *hx.Rng) string {
@@ -1315,6 +1351,19 @@ func genC14(r *hx.Rng, tier string, w io.Writer) {
 	genReadFaults(r, w)
 	for i := 0; i < nfault; i++ {
 		genScenario(r, w, "log", nops, i%8 == 7, true)
+	}
+	// re-saves of the same header and data under ANOTHER signature argument (resign.go), generated after everything
+	// else so that the scenarios above stay what they were for a seed
+	genResignFixed(r, w)
+	nresign, nresignBadger := 60, 0
+	if tier == "thorough" {
+		nresign, nresignBadger = 250, 6
+	}
+	for i := 0; i < nresign; i++ {
+		genResign(r, w, "log", 40)
+	}
+	for i := 0; i < nresignBadger; i++ {
+		genResign(r, w, "badger", 30)
 	}
 	if tier == "thorough" {
 		// values just below badger's 1 MiB value threshold (they count in full towards the transaction size
